@@ -2,7 +2,7 @@
    Property theorems only; model in Gw/Merge.v, proofs in Proofs/MergeProofs.v, Proofs/MergeUnion.v. *)
 From Coq Require Import String List Bool Permutation.
 From GW Require Import Base.Res Base.GoStr Gql.Schema Gw.Merge Gw.MergeCheck
-  Proofs.MergeBasics Proofs.MergeProofs Proofs.MergeUnion.
+  Proofs.MergeBasics Proofs.MergeProofs Proofs.MergeUnion Proofs.DirEq.
 Import ListNotations.
 Open Scope string_scope.
 Open Scope list_scope.
@@ -32,6 +32,21 @@ Print Assumptions C10_success_excludes_incompatibility_partial.
 (* the full statement, kept visible: *)
 Definition C10_success_statement : Prop := forall srcs srcs' : list schema,
   Permutation srcs srcs' -> is_ok (merge_schemas srcs) = is_ok (merge_schemas srcs').
+
+(* Applied directives (as repaired, see DESIGN 6.5): the n-th application of a directive is compared
+   with the n-th application of that directive in the other list, and the outcome does not depend
+   on which of the two definitions comes first -- also when a repeatable directive is applied
+   several times.  (Argument names are unique within one application: GraphQL validation.) *)
+Theorem C10_applied_directives_compared_symmetrically : forall l1 l2,
+  args_wf l1 -> args_wf l2 -> dirlists_equal l1 l2 = true -> dirlists_equal l2 l1 = true.
+Proof. exact dirlists_equal_sym. Qed.
+Print Assumptions C10_applied_directives_compared_symmetrically.
+
+Example C10_repeated_directives :
+  let tag v := {| da_name := "tag"; da_args := [("name", Some {| gv_kind := 0; gv_str := v |})] |} in
+  dirlists_equal [tag "a"; tag "a"] [tag "a"; tag "b"] = false /\ dirlists_equal [tag "a"; tag "b"] [tag "a"; tag "a"] = false /\
+  dirlists_equal [tag "a"; tag "b"] [tag "a"; tag "b"] = true /\ dirlists_equal [tag "a"; tag "b"] [tag "b"; tag "a"] = false.
+Proof. vm_compute. repeat split. Qed.
 
 (* the pairwise relation the theorems rest on is symmetric, so it cannot prefer an order *)
 Theorem C10_compatibility_symmetric : forall a b, drel a b -> drel b a.
